@@ -50,6 +50,8 @@ def _exec_case(job):
                 o0.stderr = "[profiling run] " + o0.stderr
                 return o0
             args = args + ["-a", prof]
+        if cfg.get("profile"):
+            args = args + ["-p", os.path.join(rundir, "prof.json")]
         o = sf.run_dl(text_path, facts, out, args=args, env=cfg.get("env"), timeout=cfg.get("timeout", 60))
     if o.kind == "ok":
         try:
@@ -143,7 +145,29 @@ def run_configs(P, cases, configs, wd, res, pid, label, max_cases=None, rng=None
             shutil.rmtree(rundir, ignore_errors=True)
     return runs
 
+# crashes of the compiler that are genuine, recorded defects of /repo (known_findings.json).  For the properties that
+# list them they are reported as KNOWN-FINDING; for the other evaluation properties such a program simply cannot be
+# evaluated in any configuration and is left out (counted).
+KNOWN_CRASHES = {"Unable to ground parameter in materialisation-requiring aggregate body": "aggregate-param-grounding-assert"}
+
+def known_crash(res, pid, text):
+    from . import known
+    for needle, fid in KNOWN_CRASHES.items():
+        if needle in (text or ""):
+            kf = known.load()
+            if known.is_listed(kf, pid, fid):
+                msg = known.describe(kf, pid, fid)
+                if msg not in res.known:
+                    res.known.append(msg)
+                res.count("known_finding_hits")
+            else:
+                res.count("runs_left_out_known_compiler_crash")
+            return True
+    return False
+
 def _report(res, pid, desc, rundir, P, case, cfg, tp, on_violation, o=None):
+    if known_crash(res, pid, desc + (o.stderr if o is not None else "")):
+        return
     os.makedirs(rundir, exist_ok=True)
     with open(os.path.join(rundir, "replay.json"), "w") as f:
         json.dump({"property": pid, "program": P.get("id"), "dl": tp, "config": cfg["name"], "args": cfg.get("args", []),
